@@ -266,6 +266,51 @@ func (c *Ctx) checkUnmarshalText() {
 		okMask := core.IsBinOp(token.AND, core.Any, core.IsConstOf(mask), true)(st.Val)
 		r.Check(okMask, "C05.2-unmarshal-guards", fk(um)+": stored value masked with ModeBitmask", c.pos(st), "", "internal marker bits (unset/invalid) can be stored as permissions")
 	})
+	if n == 0 {
+		// the conditional store moved onto a method of the target (`m.assignDefined(m0)`): the store and
+		// its unset test and mask are examined there, the success of parsing at the call
+		core.AllInstrs(um, func(in ssa.Instruction) {
+			call, ok := in.(*ssa.Call)
+			if !ok {
+				return
+			}
+			h := call.Call.StaticCallee()
+			if h == nil || h == um || !core.InModule(h) || len(h.Blocks) == 0 || len(h.Params) != 2 || len(call.Call.Args) != 2 {
+				return
+			}
+			if call.Call.Args[0] != ssa.Value(um.Params[0]) {
+				return
+			}
+			ex, isEx := call.Call.Args[1].(*ssa.Extract)
+			if !isEx || ex.Index != 0 {
+				return
+			}
+			core.AllInstrs(h, func(in2 ssa.Instruction) {
+				st, ok := in2.(*ssa.Store)
+				if !ok {
+					return
+				}
+				if p, ok := st.Addr.(*ssa.Parameter); !ok || p != h.Params[0] {
+					return
+				}
+				n++
+				var gs []core.Guard
+				for _, ci := range calls {
+					gs = append(gs, successGuard(ci))
+				}
+				ok1, _ := core.GuardedBy(um, call, gs...)
+				r.Check(ok1 && len(calls) > 0, "C05.2-unmarshal-guards", fk(um)+": target written only if parsing succeeded", c.pos(call), "", "text with unknown letters changes the target")
+				gU := core.EqGuard("m0!=ModeUnset", func(v ssa.Value) bool { return v == ssa.Value(h.Params[1]) }, core.IsConstOf(unset), false)
+				saved := core.NoLift
+				core.NoLift = true
+				ok2, cnt := core.GuardedBy(h, st, gU)
+				core.NoLift = saved
+				r.Check(ok2 && cnt[0] > 0, "C05.2-unmarshal-guards", fk(um)+": empty string means no change", c.pos(st), "", "an empty mode string overwrites the target")
+				okMask := core.IsBinOp(token.AND, core.Any, core.IsConstOf(mask), true)(st.Val)
+				r.Check(okMask, "C05.2-unmarshal-guards", fk(um)+": stored value masked with ModeBitmask", c.pos(st), "", "internal marker bits (unset/invalid) can be stored as permissions")
+			})
+		})
+	}
 	r.Check(n == 1, "C05.2-unmarshal-guards", fk(um)+": exactly one assignment of the target", "-", "", fmt.Sprintf("%d assignments of the target", n))
 }
 
